@@ -1,4 +1,4 @@
-import Httpcache.Proofs.Validation
+import Httpcache.Proofs.Liveness
 /-
 C13 — stale-if-error serves the stored response on origin failure, within its window.
 
@@ -7,6 +7,13 @@ C13 — stale-if-error serves the stored response on origin failure, within its 
    below N, the stored response is returned (marked STALE, with a correct Age) instead of the
    failure. Outside that window, for other statuses, or when must-revalidate or no-cache applies,
    the origin's error response or the error is returned and the stored response is not."
+
+Both directions are proved: `sie_only_inside_window` (a STALE answer of a validation implies failure of
+the listed kinds, no mandatory validation, a directive on the stored response or the request, and the
+RFC window) and `sie_serves` (under those conditions — for a request without a max-age of its own and a
+stored response with a usable Date — the stored response IS returned, marked STALE once, with the RFC age
+of the instant of the failure). A request max-age shortens the lifetime the code uses (C13 does not say
+which lifetime "staleness" refers to then), so liveness is stated without it.
 -/
 namespace Httpcache.C13
 open Httpcache
@@ -77,5 +84,62 @@ theorem sie_only_inside_window (cfg : Cfg) (t0 : Int) (req : Req) (e : Entry) (k
           have hx : Header.get (respWith r (applyStatus .bypass r.header)).header sStatusHeader = CacheStatus.bypass.value := by
             simp only [respWith]; exact applyStatus_get _ _
           rw [hx] at hstale; exact hne3 hstale.symm
+
+/-- Liveness: when the validation of a stored response fails — the origin call errors or answers a
+    status of the table — validation is not mandatory, the request sets no max-age of its own, and the
+    stored response or the request carries stale-if-error = N with the response inside that window by
+    the RFC definitions at the instant of the failure, then the exchange returns the stored response:
+    same status and body, exactly one cache status STALE, X-From-Cache = 1, and an Age field that is
+    the RFC age at that instant in whole seconds. Nothing is written to the store. -/
+theorem sie_serves (cfg : Cfg) (t0 t1 : Int) (req : Req) (e : Entry) (key : Str) (refs : List Ref) (ri : Option Nat)
+    (ans : OriginAns) (hle : t0 ≤ t1) (hrt : e.receivedAt ≤ t0)
+    (hs : e.resp.status ≠ 304) (hT : TimesOK e) (hreq : (parseCC req.header).maxAge = none) (d : Int)
+    (hd : Spec.httpTime cfg.glue.parseTime e.resp.header sDate = some d)
+    (hdoc : Spec.heuristicallyCacheable.contains e.resp.status = true → isHeuristicStatus e.resp.status = true)
+    (hfail : ans = .err t1 ∨ ∃ r b, ans = .resp r t1 b ∧ isStaleErrorAllowed r.status = true)
+    (n : Int) (hn : Spec.directiveSeconds modelReader e.resp.header (str% "stale-if-error") = some n ∨
+          Spec.directiveSeconds modelReader req.header (str% "stale-if-error") = some n)
+    (hw : Spec.withinWindow modelReader cfg.glue.parseTime (Spec.storedOfEntry e) t1 n = true) :
+    ∃ x, Run (handleValidation cfg sGET (withConditional req.header e.resp.header) key e refs ri
+        (calculateFreshness cfg.glue t0 e (parseCC req.header) (parseCC e.resp.header)) (parseCC req.header) false t0 ans
+        (fun r => .ret r)) [] (.resp x) ∧
+      x.status = e.resp.status ∧ x.body = e.resp.body ∧
+      Header.values x.header sStatusHeader = [CacheStatus.stale.value] ∧
+      Header.values x.header sFromCache = [['1']] ∧
+      Header.values x.header sAge = [intToStr (Spec.currentAge cfg.glue.parseTime (Spec.storedOfEntry e) t1 / nsPerSec)] := by
+  have hc := sie_complete cfg.glue t0 t1 e req.header hle hrt hs hT hreq d hd hdoc n hn hw
+  have hf := servedHeader_fields .stale rfl (calculateFreshness cfg.glue t0 e (parseCC req.header) (parseCC e.resp.header)) t1
+    e.resp.header (parseCC e.resp.header)
+  have hage : ageSeconds (calculateFreshness cfg.glue t0 e (parseCC req.header) (parseCC e.resp.header)) t1 =
+      Spec.currentAge cfg.glue.parseTime (Spec.storedOfEntry e) t1 / nsPerSec := by
+    have h0 : (parseCC req.header).maxAge ≠ some 0 := by rw [hreq]; simp
+    obtain ⟨ha, hts, _⟩ := calc_fields cfg.glue t0 e (parseCC req.header) (parseCC e.resp.header) h0
+    unfold ageSeconds
+    rw [ha, hts, age_eq cfg.glue t0 e hT, ← spec_age_step_eq cfg.glue.parseTime (Spec.storedOfEntry e) t0 t1 hle hrt]
+    have : 0 ≤ Spec.currentAge cfg.glue.parseTime (Spec.storedOfEntry e) t1 := by
+      rw [spec_age_step_eq cfg.glue.parseTime (Spec.storedOfEntry e) t0 t1 hle hrt]
+      apply satAdd_nonneg
+      · rw [← age_eq cfg.glue t0 e hT]
+        unfold currentAge
+        apply satAdd_nonneg
+        · exact Int.le_trans (Int.le_max_right _ _) (Int.le_max_left _ _)
+        · exact Int.le_max_right _ _
+      · unfold satSub; exact sat_nonneg (by omega)
+    rw [Int.max_eq_left this]
+  refine ⟨serveStale (calculateFreshness cfg.glue t0 e (parseCC req.header) (parseCC e.resp.header)) t1 e, ?_, rfl, rfl, hf.1, hf.2.1, ?_⟩
+  · unfold handleValidation
+    simp only []
+    rcases hfail with h | ⟨r, b, h, hst⟩
+    · subst h
+      simp only [hc, Bool.not_false, Bool.and_true, decide_true, ↓reduceIte]
+      exact Run.ret _
+    · subst h
+      have h304 : r.status ≠ 304 := by
+        intro h3
+        rw [h3] at hst
+        revert hst; decide
+      simp only [h304, decide_false, Bool.and_false, Bool.false_eq_true, ↓reduceIte, hst, hc, Bool.not_false, decide_true, Bool.and_self]
+      exact Run.ret _
+  · rw [← hage]; exact hf.2.2
 
 end Httpcache.C13
